@@ -151,7 +151,8 @@ func (c *BlobMemoryCache) TryReserve(size uint64) bool {
 	c.mu.Lock()
 	defer c.mu.Unlock()
 
-	if c.totalSize+size > c.config.MaxSize {
+	// Overflow-safe form of c.totalSize+size > c.config.MaxSize.
+	if size > c.config.MaxSize || c.totalSize > c.config.MaxSize-size {
 		c.stats.Counter("reserve_failure").Inc(1)
 		return false
 	}
